@@ -1,5 +1,35 @@
-"""C15, writers: the file written from a row-permuted chart denotes the same timeline (filled in with the format harnesses)."""
+"""C15, writers: the file written from a row-permuted chart denotes the same timeline."""
+from __future__ import annotations
+
+from functools import partial
+
+from symx.run import Obligation
+from .common import same_multiset
+from .c09 import Spec
+from .memcharts import mem_chart, written, WRITABLE
+
+
+def ob_writer_order(game, keys, variant, ctx):
+    sp = Spec(ctx, keys, variant, zero_start=game == "bms")
+    a = written(ctx, game, mem_chart(ctx, sp, game, perm=False))
+    b = written(ctx, game, mem_chart(ctx, sp, game, perm=True))
+    ctx.check("both-well-formed", not a["ill"] and not b["ill"], note="%r %r" % (a["ill"][:1], b["ill"][:1]))
+    for k in ("hits", "holds", "tempo") + (("samples",) if game == "osu" else ()):
+        ctx.check("written-files.same-%s" % k, same_multiset(ctx, a[k], b[k]), note="%r vs %r" % (a[k][:3], b[k][:3]))
+    for k in a["extra"]:
+        from .common import cell_same
+
+        ctx.check("written-files.same-%s" % k, cell_same(ctx, a["extra"][k], b["extra"][k]))
+    if game == "sm":
+        ctx.check("written-files.same-offset", ctx.eq(a["offset_ms"], b["offset_ms"]))
 
 
 def obligations(tier, seed):
-    return []
+    quick = tier == "quick"
+    obs = []
+    for g in WRITABLE:
+        for keys, variant in ((4, "a"), (7, "b")) if quick else ((4, "a"), (4, "b"), (4, "c"), (7, "a"), (7, "b")):
+            obs.append(Obligation("C15/write/%s/K%d/%s" % (g, keys, variant), partial(ob_writer_order, g, keys, variant),
+                                  bound="%s chart (%d keys, variant %s) and the same chart with every list's rows reversed: both written, both files interpreted by the reference reader" % (g, keys, variant),
+                                  max_paths=3000, timeout_s=300))
+    return obs
